@@ -33,6 +33,8 @@ def run(check: Check, repo: Repo, tier: str) -> None:
     X.memo_key_cover(check, repo)
     X.serial(check, repo)
     X.key_order(check, repo)
+    X.awaitable_kinds(check, repo)
+    X.typecheck_before_subfields(check, repo)
     em = repo.package_modules('execution')
     X.zip_align(check, repo, em)
     G.loop_counter(check, [f for m in em for f in m.functions()])
